@@ -10,6 +10,9 @@ CLAIMED = {
  "C02": ("exploration", "model-based PBT: generated histories with snapshot/iterator handles; every re-read compared with the handle's first read",
          "Generated histories in which collection, child and store snapshots and bounded iterators are opened at generated points and re-read after later batches, merger cycles, persister rounds, full compactions (file replaced and unlinked), Collection.Close and Store.Close; each re-read (all keys by Get, full iteration, children recursively, each iterator step against a model iterator) must equal the first read. " + NOTE_SCHED,
          "5.C02"),
+ "C03": ("exploration", "concurrent PBT: generated multi-writer / multi-reader programs with a schedule-independent prefix oracle, schedules sampled with generated perturbations",
+         "Free-running collections with 1-4 writers on disjoint key prefixes (top level and child collections), snapshot readers and a Collection.Get reader, small MaxPreMergerBatches so writers block; every snapshot must contain, per writer, exactly the effects of the prefix named by that writer's marker key, never less than what had returned before the snapshot started and never shrinking. The oracle does not depend on the schedule; schedules themselves are sampled (generated yields/sleeps, GOMAXPROCS), not enumerated - a violation needing one specific preemption may be missed.",
+         "5.C03, 6"),
  "C04": ("exploration", "model-based PBT: generated histories with close/reopen cycles at generated points; reopened content compared with the reference prefix states",
          "Store-backed histories with caught-up (event-confirmed drain) and early close points, persister held at gates, options changed on reopen, immediate reopen without waiting for pending unlinks; caught-up reopen must equal the full reference, early reopen must equal the reference after some batch prefix no shorter than the last completed round. " + NOTE_SCHED,
          "5.C04"),
@@ -46,6 +49,12 @@ CLAIMED = {
  "C14": ("exploration", "differential + model-based PBT: the same persisted directory read under generated key-index settings",
          "Generated key sets (empty key, shared prefixes, variable lengths) persisted as 1-3 segments and optionally fully compacted; a copy of the directory is opened with the index off (defaults) and with generated quota / minimum-key-bytes settings spanning hop = 1..n and truncated indexes; every present key, neighbours, below-first / above-last and generated probes are read by Get, and ranges [p,nil), [nil,p), [p,q) are iterated; all must equal the reference under every setting.",
          "5.C14"),
+ "C16": ("exploration", "concurrent PBT under a watchdog (stall = violation) plus a deterministic admission-bound case with the merger parked by the schedule controller",
+         "Free-running cases with blocked writers, slow / failing / stalling lower level, synchronous notifiers and a Close at a generated point, every call under a watchdog; Close must release blocked writers with ErrClosed, be final for NewBatch/Snapshot/Get, and a synchronous NotifyMerger must return before, during and after it. The admission bound is checked deterministically: with the merger parked, of MaxPreMergerBatches+k concurrent non-empty batches (top-level, mixed, child-only) at most MaxPreMergerBatches return and the rest are counted as waiting. Interleavings are sampled; a deadlock needing a rare interleaving may be missed.",
+         "5.C16, 6"),
+ "C17": ("exploration", "Go race detector (-race build) over generated concurrent programs with pollers",
+         "The concurrent programs of C03/C16 plus pollers for Stats, Histograms, Options, Store.Stats, Store.Snapshot and iterators, over the option grid, in a -race build; any data race report is a violation. Only races on executed paths and sampled schedules are seen.",
+         "5.C17, 6"),
  "C18": ("exploration", "differential PBT: ReadOnly open of generated (and tampered) directories through a recording File wrapper, compared with a normal open of a copy; directory hashed before/after",
          "Directories produced by generated writer histories (several data files with KeepFiles, early closes) and tampered with (incomplete / garbage newer files, torn newest file, junk); a generated program of reads, batches, notifications, Store.Persist, SnapshotPrevious and closes runs against the ReadOnly store; the directory listing with SHA-256 must be unchanged after the open and after every step, the wrapper must see only read-type operations, and the content served must equal a normal open of a copy.",
          "5.C18"),
